@@ -31,18 +31,23 @@
 EXTENDS X06Defs, Json
 
 CONSTANTS Vals,        \* set of rationals: admissible noise-scale factors
-          MaxN,        \* largest number of data points
+          MinN, MaxN,  \* number of data points
+          SortedFrom,  \* data sets with at least this many points are explored in ascending order only
           CoefVals,    \* integer polynomial coefficients
           Export
 
 ValsQuick    == {<<1, 1>>, <<3, 2>>, <<2, 1>>, <<3, 1>>}
 ValsThorough == {<<1, 2>>, <<1, 1>>, <<3, 2>>, <<2, 1>>, <<3, 1>>, <<4, 1>>}
+ValsWide     == {<<v, 1>> : v \in 1..7}
 CoefQuick    == {-1, 0, 2}
+CoefWide     == {-1, 2}
 
 VARIABLES inst, call, out
 vars == <<inst, call, out>>
 
-InjSeqs(n) == {f \in [1..n -> Vals] : \A i, j \in 1..n : i # j => f[i] # f[j]}
+InjSeqs(n) == IF n >= SortedFrom
+              THEN {SetToSortSeq(S, LAMBDA x, y : QLt(x, y)) : S \in kSubset(n, Vals)}
+              ELSE {f \in [1..n -> Vals] : \A i, j \in 1..n : i # j => f[i] # f[j]}
 \* the data set is chosen in two steps (factor sequence in Init, polynomial by the action SetData) so that the
 \* statements about the weights alone are evaluated once per factor sequence
 NoData == <<>>
@@ -91,7 +96,7 @@ ExpEstResult(I) ==
       w |-> <<>>]
 
 \* ---- state machine ---------------------------------------------------------
-Init == inst \in {[c |-> c, a |-> NoData, p |-> 0] : c \in UNION {InjSeqs(n) : n \in 1..MaxN}} /\ call = [f |-> "none", k |-> 0] /\ out = [e |-> QZero, v |-> QZero, w |-> <<>>]
+Init == inst \in {[c |-> c, a |-> NoData, p |-> 0] : c \in UNION {InjSeqs(n) : n \in MinN..MaxN}} /\ call = [f |-> "none", k |-> 0] /\ out = [e |-> QZero, v |-> QZero, w |-> <<>>]
 
 SetData(a, p) ==
   /\ inst.a = NoData /\ Len(a) = N(inst)
@@ -119,7 +124,7 @@ CallExpEst ==
   /\ call' = [f |-> "richardson_exp", k |-> inst.p]
   /\ out' = ExpEstResult(inst)
   /\ UNCHANGED inst
-Next == (\E n \in 1..MaxN : \E a \in [1..n -> CoefVals] : \E p \in (IF n = 3 THEN 1..3 ELSE {0}) : SetData(a, p))
+Next == (\E n \in MinN..MaxN : \E a \in [1..n -> CoefVals] : \E p \in (IF n = 3 THEN 1..3 ELSE {0}) : SetData(a, p))
         \/ CallRichardson \/ (\E k \in 0..(MaxN - 1) : CallExtrap(k)) \/ CallDiis \/ CallExpEst
 
 \* ---- invariants -------------------------------------------------------------
